@@ -96,6 +96,16 @@ def generate(unit, here, out, repo, subst, instance=None):
     return dst, files
 
 
+MEM_CAP_BYTES = 20 * 1024 ** 3
+
+
+def _mem_cap():
+    """address-space cap for the cargo-kani process tree: a CBMC instance that explodes on changed code must end as
+    `undecided` (out of memory), not take the machine down (62 GB, no swap)"""
+    import resource
+    resource.setrlimit(resource.RLIMIT_AS, (MEM_CAP_BYTES, MEM_CAP_BYTES))
+
+
 def run_kani(unit, harnesses, here, out, repo, subst, bound_note, instance=None, timeout=3000):
     """run all harnesses of a unit in one cargo-kani invocation; returns list of result dicts"""
     t0 = time.time()
@@ -110,7 +120,7 @@ def run_kani(unit, harnesses, here, out, repo, subst, bound_note, instance=None,
         cmd += ["--harness", h["name"]]
     env = dict(os.environ, CARGO_NET_OFFLINE="true", CARGO_TARGET_DIR=tgt)
     try:
-        p = subprocess.run(cmd, cwd=crate, env=env, capture_output=True, text=True, timeout=timeout)
+        p = subprocess.run(cmd, cwd=crate, env=env, capture_output=True, text=True, timeout=timeout, preexec_fn=_mem_cap)
         outp = p.stdout + "\n" + p.stderr
     except subprocess.TimeoutExpired as e:
         outp = (e.stdout or b"").decode(errors="replace") if isinstance(e.stdout, bytes) else (e.stdout or "")
@@ -201,7 +211,7 @@ def concrete_playback(instance, harness, out):
            "--concrete-playback=print", "--output-format", "terse", "--harness", harness]
     env = dict(os.environ, CARGO_NET_OFFLINE="true", CARGO_TARGET_DIR=tgt)
     try:
-        p = subprocess.run(cmd, cwd=crate, env=env, capture_output=True, text=True, timeout=1800)
+        p = subprocess.run(cmd, cwd=crate, env=env, capture_output=True, text=True, timeout=1800, preexec_fn=_mem_cap)
     except subprocess.TimeoutExpired:
         return []
     tests = []
@@ -240,7 +250,7 @@ def native_playback(instance, unit, tests, here, out, repo, subst):
     env = dict(os.environ, CARGO_NET_OFFLINE="true", CARGO_TARGET_DIR=tgt)
     cmd = ["cargo", "kani", "playback", "-Z", "concrete-playback", "--", "kani_concrete_playback"]
     try:
-        p = subprocess.run(cmd, cwd=crate, env=env, capture_output=True, text=True, timeout=1800)
+        p = subprocess.run(cmd, cwd=crate, env=env, capture_output=True, text=True, timeout=1800, preexec_fn=_mem_cap)
     except subprocess.TimeoutExpired:
         return False, "playback timeout"
     outp = p.stdout + p.stderr
